@@ -806,6 +806,7 @@ func (*endpoint) Accept() (tcpip.Endpoint, *waiter.Queue, *tcpip.Error) {
 // 在协议栈中注册该UDP端，并且分配源端口
 func (e *endpoint) registerWithStack(nicid tcpip.NICID, netProtos []tcpip.NetworkProtocolNumber,
 	id stack.TransportEndpointID) (stack.TransportEndpointID, *tcpip.Error) {
+	reserved := false
 	if e.id.LocalPort == 0 {
 		port, err := e.stack.ReservePort(netProtos, ProtocolNumber, id.LocalAddress, id.LocalPort)
 		if err != nil {
@@ -813,10 +814,13 @@ func (e *endpoint) registerWithStack(nicid tcpip.NICID, netProtos []tcpip.Networ
 		}
 		id.LocalPort = port
 		e.reservedNetProtos = netProtos
+		reserved = true
 	}
 
 	err := e.stack.RegisterTransportEndpoint(nicid, netProtos, ProtocolNumber, id, e)
-	if err != nil {
+	if err != nil && reserved {
+		// Only undo the reservation made above: a port the endpoint
+		// already held stays reserved for it.
 		e.stack.ReleasePort(netProtos, ProtocolNumber, id.LocalAddress, id.LocalPort)
 	}
 	return id, err
